@@ -96,6 +96,24 @@ CHECKS["C11"] = dict(
     design_ref="DESIGN.md 4 C11",
 )
 
+CHECKS["C08"] = dict(
+    technique=LPE + "; SMT lemma (QF_LIRA) about CPython float timestamps",
+    text="Inserted, updated and compared times are symbolic in three kinds - aware UTC, aware with a symbolic non-zero offset, naive "
+    "(local offset an uninterpreted function of the wall value) - plus the insertion clock; every stored/returned time must be "
+    "UTC-aware and equal the documented instant at microsecond resolution, TimeQuery results must equal instant comparison "
+    "(all six operators, ties and adjacent microseconds chosen by the solver), sorted results stable. CSV obligations run "
+    "concretely under four process zones. Lemma L-float-us (213 queries) justifies exact-rational timestamps in 1697-2242.",
+    design_ref="DESIGN.md 2.1, 4 C08, E3",
+)
+CHECKS["C14"] = dict(
+    technique="CrossHair symbolic execution with a Union-typed symbolic value (z3) + exhaustive selector enumeration of a wrongly-typed battery through the real API",
+    text="For every (entry point, slot) pair the offending value is a symbolic Union[int,float,bool,bytes,None,str,List,Dict] (CrossHair; "
+    "value slots) or ranges over a 19-literal battery (lean engine; all slots incl. dict keys, both storages, Measurement.*): "
+    "either ValueError/TypeError is raised or the value is valid for the slot, and afterwards every stored point is well-typed.",
+    design_ref="DESIGN.md 4 C14",
+    note="trusted: CrossHair, z3, vf.lpe. The battery family is a finite product (exhaustion == enumeration); key slots cannot be symbolic in CrossHair (hashing realises the value).",
+)
+
 NOT_YET = {}
 
 
